@@ -1,6 +1,7 @@
 mod asyncworld;
 mod build;
 mod corpus;
+mod crash;
 mod ctx;
 mod driver;
 mod evidence;
